@@ -59,8 +59,62 @@ func c11OprfScenarios() []sched.Scenario {
 			return out[0]
 		}
 		scs = append(scs,
-			sched.Scenario{Cost: 20, Name: "oprf/" + name + "/PublicKey||PublicKey", Setup: fresh, Threads: []func(interface{}) interface{}{pub, pub}},
-			sched.Scenario{Cost: 20, Name: "oprf/" + name + "/PublicKey||FullEvaluate||Round", Setup: fresh, Threads: []func(interface{}) interface{}{pub, full, round}})
+			sched.Scenario{Cost: 50, Name: "oprf/" + name + "/PublicKey||PublicKey", Setup: fresh, Threads: []func(interface{}) interface{}{pub, pub}},
+			sched.Scenario{Cost: 50, Name: "oprf/" + name + "/PublicKey||FullEvaluate||Round", Setup: fresh, Threads: []func(interface{}) interface{}{pub, full, round}})
+	}
+	// partially oblivious mode: one key, different public info strings at the same time
+	for _, suite := range []oprf.Suite{oprf.SuiteRistretto255, oprf.SuiteP256} {
+		suite := suite
+		name := suite.Identifier()
+		fresh := func() interface{} {
+			k, err := oprf.DeriveKey(suite, oprf.PartialObliviousMode, verifmc.Shake("c11-poprf-"+name, 32), []byte("info"))
+			if err != nil {
+				panic(err)
+			}
+			return k
+		}
+		round := func(info string, inputs ...string) func(interface{}) interface{} {
+			return func(sh interface{}) interface{} {
+				k := sh.(*oprf.PrivateKey)
+				srv := oprf.NewPartialObliviousServer(suite, k)
+				cli := oprf.NewPartialObliviousClient(suite, srv.PublicKey())
+				var in [][]byte
+				for _, x := range inputs {
+					in = append(in, []byte(x))
+				}
+				fin, req, err := cli.Blind(in)
+				if err != nil {
+					return err
+				}
+				ev, err := srv.Evaluate(req, []byte(info))
+				if err != nil {
+					return err
+				}
+				out, err := cli.Finalize(fin, ev, []byte(info))
+				if err != nil {
+					return err
+				}
+				var all []byte
+				for _, o := range out {
+					all = append(all, o...)
+				}
+				return all
+			}
+		}
+		full := func(info string) func(interface{}) interface{} {
+			return func(sh interface{}) interface{} {
+				out, err := oprf.NewPartialObliviousServer(suite, sh.(*oprf.PrivateKey)).FullEvaluate([]byte("input"), []byte(info))
+				if err != nil {
+					return err
+				}
+				return out
+			}
+		}
+		scs = append(scs,
+			sched.Scenario{Cost: 150, Name: "oprf/" + name + "/POPRF Round(infoA)||Round(infoB)", Setup: fresh,
+				Threads: []func(interface{}) interface{}{round("epoch-A", "in1", "in2", "in3"), round("epoch-B", "in1")}},
+			sched.Scenario{Cost: 150, Name: "oprf/" + name + "/POPRF Round(infoA)||FullEvaluate(infoB)||FullEvaluate(infoC)", Setup: fresh,
+				Threads: []func(interface{}) interface{}{round("epoch-A", "in1", "in2"), full("epoch-B"), full("epoch-C")}})
 	}
 	return scs
 }
